@@ -264,3 +264,104 @@ package db
 //@ ensures err != nil ==> result0 == f && dbInv(f) && !f.destroyable && closes[f.dbi] == 0
 //@ ensures err == nil ==> result0 != nil && dbInv(result0) && !result0.destroyable && closes[result0.dbi] == 0
 //@ ensures err == nil && result0 != f ==> f.destroyable && dbInv(f)
+
+// ---- C02 / C13: wire-format names and the sorted (v2) reader ----------------------------------------------
+// wfname(q, n, offs, idx): q is n labels (each 1..63 bytes, length-prefixed) and a terminating 0, at most 255
+// bytes; offs[k] is the offset of label k (offs[n] the final 0), idx is the inverse of offs.
+//@ spec wfname(q slice, n int, offs seq, idx seq) bool = n >= 0 && len(q) >= 1 && len(q) <= 255 && offs[0] == 0 && offs[n] == len(q) - 1 && q[len(q)-1] == 0 && forall(k, 0, n, q[offs[k]] >= 1 && q[offs[k]] <= 63 && offs[k+1] == offs[k] + 1 + q[offs[k]]) && forall(k, 0, n+1, idx[offs[k]] == k) && forall(a, 0, n+1, forall(b, a, n+1, offs[a] <= offs[b]))
+//@ spec cur(q slice, q0 slice) int = off(q) - off(q0)
+
+// reverseZoneNameToBuffer: never indexes out of bounds on a well-formed name (byte-typed index arithmetic
+// included: this is where the 255-byte limit is needed) and terminates the reversed name.
+// With roffs[k] = len-1-offs[n-k] (the label offsets of the reversed name) the result is again a well-formed
+// name: the same labels in reverse order (their contents are copied; only the structure is claimed here).
+//@ spec revoffs(q slice, n int, offs seq, roffs seq, ridx seq) bool = forall(k, 0, n+1, roffs[k] == len(q) - 1 - offs[n-k] && ridx[roffs[k]] == k)
+//@ func reverseZoneNameToBuffer
+//@ ghost n int, offs seq, idx seq, roffs seq, ridx seq
+//@ requires wfname(qName, n, offs, idx) && len(destination) >= len(qName) && ref(destination) != ref(qName)
+//@ requires revoffs(qName, n, offs, roffs, ridx)
+//@ modifies destination[0:len(qName)]
+//@ ensures[term] destination[len(qName)-1] == 0
+//@ ensures[wf] wfname(destination[0:len(qName)], n, roffs, ridx)
+//@ loop 0 invariant[lens] forall(k, 0, idx[cur(qName, old(qName))], destination[len(old(qName)) - 1 - offs[k+1]] == old(qName)[offs[k]])
+//@ loop 0 invariant[buf] ref(qName) == ref(old(qName)) && cur(qName, old(qName)) >= 0 && len(qName) == len(old(qName)) - cur(qName, old(qName)) && destination == old(destination)
+//@ loop 0 invariant[pos] 0 <= idx[cur(qName, old(qName))] && idx[cur(qName, old(qName))] <= n && offs[idx[cur(qName, old(qName))]] == cur(qName, old(qName))
+//@ loop 0 invariant[i] i == len(old(qName)) - 1 - cur(qName, old(qName))
+//@ loop 0 invariant[term] destination[len(old(qName))-1] == 0
+//@ loop 0 invariant[same] forall(j, 0, len(old(qName)), old(qName)[j] == old(old(qName)[j]))
+
+//@ func getLengthWithoutLastLabel
+//@ ghost n int, offs seq, idx seq, m int
+//@ requires wfname(qName, n, offs, idx) && 0 <= m && m <= n && qLength == offs[m] + 1
+//@ ensures[range] 1 <= result && result <= qLength
+//@ ensures[cut] m >= 1 ==> result == offs[m-1] + 1
+//@ ensures[root] m == 0 ==> result == 1
+//@ loop 0 invariant 0 <= idx[i] && idx[i] <= m && offs[idx[i]] == i && (idx[i] >= 1 ==> lastLabelLengthIndex == offs[idx[i]-1]) && (idx[i] == 0 ==> lastLabelLengthIndex == 0)
+
+//@ func reverseZoneName
+//@ ghost n int, offs seq, idx seq, roffs seq, ridx seq
+//@ requires wfname(qName, n, offs, idx) && revoffs(qName, n, offs, roffs, ridx)
+//@ ensures[len] len(result) == len(qName) && fresh(result)
+//@ ensures[wf] wfname(result, n, roffs, ridx)
+//@ call reverseZoneNameToBuffer#0 ghost n = n; offs = offs; idx = idx; roffs = roffs; ridx = ridx
+
+// findCommonLongestPrefix: on two well-formed names the result is the offset of the first label at which
+// they differ (a common label boundary of both), or the common full length when they are equal.
+//@ func findCommonLongestPrefix
+//@ ghost n1 int, o1 seq, i1 seq, n2 int, o2 seq, i2 seq
+//@ ghostret ga int = i1[i]
+//@ requires wfname(str1, n1, o1, i1) && wfname(str2, n2, o2, i2)
+//@ ensures[range] 0 <= result && result <= len(str1)
+//@ ensures[boundary] (result == len(str1) && result == len(str2)) || (0 <= ga && ga <= n1 && ga <= n2 && o1[ga] == result && o2[ga] == result)
+//@ loop 0 invariant (i == len(str1) && i == len(str2)) || (0 <= i1[i] && i1[i] <= n1 && i1[i] <= n2 && o1[i1[i]] == i && o2[i1[i]] == i)
+//@ loop 1 invariant i + 1 <= j && j <= i + str1[i] + 1 && str1[i] == str2[i] && 0 <= i1[i] && i1[i] <= n1 && i1[i] <= n2 && o1[i1[i]] == i && o2[i1[i]] == i && i < len(str1) && i < len(str2)
+
+// ---- wildcard safety of labels (C01, C02) ---------------------------------------------------------------
+//@ spec safech(c int) bool = (c >= 97 && c <= 122) || (c >= 48 && c <= 57) || c == 45 || c == 95
+//@ pred allsafe(s []byte) = forall(j, 0, len(s), safech(s[j]))
+
+// dnsLabelWildsafe: true exactly when every byte is a lower-case letter, a digit, '-' or '_'
+//@ func dnsLabelWildsafe
+//@ pure
+//@ ensures result == allsafe(q)
+//@ loop 0 invariant 0 <= idx && idx <= len(q) && forall(j, 0, idx, safech(q[j]))
+//@ reveal allsafe
+
+// The wild-safety check of the closest-key walk (closure in sortedDataReader.FindAnswer): when the walk
+// jumps from label boundary m0 back to boundary m of the reversed name, EVERY skipped label (m .. m0-1),
+// in full, must be wild-safe — exactly what the label-by-label walk checks one label at a time.
+//@ func sortedDataReader.FindAnswer@precheck
+//@ region funclit#1
+//@ flag skip frame
+//@ ghost n int, offs seq, idx seq, m int, m0 int
+//@ requires wfname(q, n, offs, idx) && 0 <= m && m <= m0 && m0 <= n && length == offs[m] + 1 && lastLength == offs[m0] + 1
+//@ ensures[short] len(q) < len(packedControlName) ==> !result
+//@ ensures[safe] result ==> forall(k, m, m0, allsafe(q[offs[k]+1 : offs[k+1]])) && lastLength == length
+//@ ensures[unsafe] !result && len(q) >= len(packedControlName) ==> exists(k, m, m0, !allsafe(q[offs[k]+1 : offs[k+1]]))
+//@ loop 0 invariant[pos] i >= 1 && m <= idx[i-1] && idx[i-1] <= m0 && offs[idx[i-1]] == i - 1 && lastLength == offs[m0] + 1
+//@ loop 0 invariant[sofar] forall(k, m, idx[i-1], allsafe(q[offs[k]+1 : offs[k+1]]))
+
+// FindClosestKey / TryForEach: DB well-formedness assumption — a key that carries the resource-record
+// marker "\000o" is marker + reversed name + 2-byte location, i.e. at least 5 bytes long.
+//@ func ClosestKeyFinder.FindClosestKey
+//@ trusted
+//@ ensures err != nil ==> result0 == nil
+//@ ensures err == nil && len(result0) >= 2 && result0[0] == 0 && result0[1] == 111 ==> len(result0) >= 5
+// row callbacks work on the row they are given; they do not write to key buffers (assumed)
+//@ func DataReader.ForEach
+//@ trusted
+//@ func sortedDataReader.TryForEach
+//@ flag skip frame
+//@ requires r.closestKeyFinder != nil
+//@ ensures err == nil && len(foundKey) >= 2 && foundKey[0] == 0 && foundKey[1] == 111 ==> len(foundKey) >= 5
+
+// find (closest-key walk): index safety. Claimed: every access to the found key and to the reversed name.
+// Not claimed (flag unclaimed): the three accesses to the search-key buffer that need 'the common prefix
+// with the found key is shorter than the name' — a consequence of SeekForPrev's byte order, not of types.
+//@ func sortedDataReader.find
+//@ flag skip frame
+//@ flag unclaimed /bounds/key\[locationStart-1\]|/bounds/key\[locationStart:\]|/bounds/key\[:locationStart\+locationLength\]|/bounds/key\[:len\(key\)-locationLength\]|/bounds/k\[:len\(key\)-locationLength\]|/pre/getLengthWithoutLastLabel|/pre/findCommonLongestPrefix
+//@ ghost n int, offs seq, idx seq, roffs seq, ridx seq
+//@ requires wfname(q, n, offs, idx) && revoffs(q, n, offs, roffs, ridx) && loc != nil && r.closestKeyFinder != nil
+//@ call reverseZoneName#0 ghost n = n; offs = offs; idx = idx; roffs = roffs; ridx = ridx
+//@ loop 0 invariant 1 <= qLength && qLength <= len(reversedQName) + 1 && len(reversedQName) == len(q) && locationLength == 2 && domainNameStart == 2 && loc != nil
